@@ -66,6 +66,7 @@ func (eng *Engine) VerifyFunction(fn *ssa.Function, con *Contract) *Unit {
 	entry := st.clone()
 	x.entry = entry
 	fr.entrySt = entry
+	x.frame = x.computeFrame(con, vars, entry, fn.Pkg.Pkg)
 	env := &Env{x: x, u: u, vars: vars, bound: map[string]Val{}, st: st, old: entry, pkg: fn.Pkg.Pkg}
 	for _, ln := range con.Uses {
 		if err := u.useLemma(ln, fn.Pkg.Pkg); err != nil {
@@ -131,6 +132,181 @@ func (eng *Engine) VerifyFunction(fn *ssa.Function, con *Contract) *Unit {
 	return u
 }
 
+type locTarget struct {
+	comp string
+	ref  string // object ref (field), slice term (elem)
+	kind string
+	sl   string
+}
+
+type frameSpec struct {
+	targets []locTarget
+	whole   map[string]bool
+	errs    []string
+	modAll  bool
+}
+
+// computeFrame classifies the declared modifies targets of the top-level contract (evaluated
+// in the entry state).
+func (x *Executor) computeFrame(con *Contract, vars map[string]Val, entry *State, pkg *types.Package) *frameSpec {
+	u := x.u
+	fs := &frameSpec{whole: map[string]bool{}, modAll: con.ModAll}
+	if con.ModAll {
+		return fs
+	}
+	preEnv := &Env{x: x, u: u, vars: vars, bound: map[string]Val{}, st: entry, old: entry, pkg: pkg}
+	for _, m := range con.Modifies {
+		switch t := m.(type) {
+		case *ESel:
+			if id, ok := t.X.(*EIdent); ok {
+				if ty := x.lookupTypeName(preEnv, id.Name); ty != nil {
+					if _, isS := ty.Underlying().(*types.Struct); isS {
+						comp, _ := u.fieldComp(ty, t.Name)
+						fs.whole[comp] = true
+						continue
+					}
+				}
+			}
+			pv, err := preEnv.Eval(t.X)
+			if err != nil {
+				fs.errs = append(fs.errs, err.Error())
+				continue
+			}
+			pt, ok := pv.Ty.Underlying().(*types.Pointer)
+			if !ok {
+				fs.errs = append(fs.errs, "modifies base not a pointer: "+m.String())
+				continue
+			}
+			fty := fieldType(u, pt.Elem(), t.Name)
+			if fty != nil && isFlattened(fty) {
+				sr := u.subRef(pt.Elem(), t.Name, pv.T)
+				if at, isA := fty.Underlying().(*types.Array); isA {
+					comp, _ := u.elemComp(at.Elem())
+					fs.targets = append(fs.targets, locTarget{comp: comp, ref: sr, kind: "field"})
+				} else {
+					x.structTargets(fs, fty, sr)
+				}
+				continue
+			}
+			comp, _ := u.fieldComp(pt.Elem(), t.Name)
+			fs.targets = append(fs.targets, locTarget{comp: comp, ref: pv.T, kind: "field"})
+		case *EIndex:
+			sv, err := preEnv.Eval(t.X)
+			if err != nil {
+				fs.errs = append(fs.errs, err.Error())
+				continue
+			}
+			switch tt := sv.Ty.Underlying().(type) {
+			case *types.Slice:
+				comp, _ := u.elemComp(tt.Elem())
+				fs.targets = append(fs.targets, locTarget{comp: comp, kind: "elems", sl: sv.T})
+			case *types.Map:
+				pres, val, ln := u.mapComps(tt)
+				for _, c := range []string{pres, val, ln} {
+					fs.targets = append(fs.targets, locTarget{comp: c, ref: sv.T, kind: "field"})
+				}
+			}
+		case *EUnary:
+			pv, err := preEnv.Eval(t.X)
+			if err != nil {
+				fs.errs = append(fs.errs, err.Error())
+				continue
+			}
+			pt, _ := pv.Ty.Underlying().(*types.Pointer)
+			if pt == nil {
+				continue
+			}
+			if _, isS := pt.Elem().Underlying().(*types.Struct); isS {
+				x.structTargets(fs, pt.Elem(), pv.T)
+			} else if at, isA := pt.Elem().Underlying().(*types.Array); isA {
+				comp, _ := u.elemComp(at.Elem())
+				fs.targets = append(fs.targets, locTarget{comp: comp, ref: pv.T, kind: "field"})
+			} else {
+				comp, _ := u.cellComp(pt.Elem())
+				fs.targets = append(fs.targets, locTarget{comp: comp, ref: pv.T, kind: "field"})
+			}
+		case *EIdent:
+			if pkg != nil {
+				if v, ok := pkg.Scope().Lookup(t.Name).(*types.Var); ok {
+					comp, _ := u.globalComp(v.Pkg().Path(), v.Name(), v.Type())
+					fs.whole[comp] = true
+				}
+			}
+		case *ETypeExpr:
+			if t.T.Kind == "slice" {
+				if ty, err := u.resolveType(t.T.Elem, pkg); err == nil {
+					comp, _ := u.elemComp(ty)
+					fs.whole[comp] = true
+				}
+			}
+		}
+	}
+	return fs
+}
+
+func (x *Executor) structTargets(fs *frameSpec, st types.Type, ref string) {
+	u := x.u
+	stt := st.Underlying().(*types.Struct)
+	for i := 0; i < stt.NumFields(); i++ {
+		ft := stt.Field(i).Type()
+		if isFlattened(ft) {
+			sr := u.subRef(st, stt.Field(i).Name(), ref)
+			if at, isA := ft.Underlying().(*types.Array); isA {
+				comp, _ := u.elemComp(at.Elem())
+				fs.targets = append(fs.targets, locTarget{comp: comp, ref: sr, kind: "field"})
+			} else {
+				x.structTargets(fs, ft, sr)
+			}
+			continue
+		}
+		comp, _ := u.fieldComp(st, stt.Field(i).Name())
+		fs.targets = append(fs.targets, locTarget{comp: comp, ref: ref, kind: "field"})
+	}
+	for _, g := range u.ghostFields(st) {
+		comp, _ := u.fieldComp(st, g.name)
+		fs.targets = append(fs.targets, locTarget{comp: comp, ref: ref, kind: "field"})
+	}
+}
+
+// frameGoal: component c in state st equals its entry version on every location that was
+// allocated at entry and is not a declared modifies target. ok=false: nothing to prove.
+func (x *Executor) frameGoal(c string, st *State) (string, bool) {
+	u := x.u
+	fs := x.frame
+	if fs == nil || fs.modAll || c == allocComp || fs.whole[c] {
+		return "", false
+	}
+	now := x.heapGet(st, c)
+	was := x.heapGet(x.entry, c)
+	if now == was {
+		return "", false
+	}
+	alloc0 := x.heapGet(x.entry, allocComp)
+	kind := u.heapKinds[c]
+	if kind == "global" {
+		return fmt.Sprintf("(= %s %s)", now, was), true
+	}
+	var exc []string
+	for _, t := range fs.targets {
+		if t.comp != c {
+			continue
+		}
+		if t.kind == "elems" && kind == "elem" {
+			exc = append(exc, fmt.Sprintf("(and (= r (s.base %[1]s)) (<= (s.off %[1]s) k) (< k (+ (s.off %[1]s) (s.len %[1]s))))", t.sl))
+		} else {
+			exc = append(exc, fmt.Sprintf("(= r %s)", t.ref))
+		}
+	}
+	excT := "false"
+	if len(exc) > 0 {
+		excT = "(or " + strings.Join(exc, " ") + ")"
+	}
+	if kind == "elem" {
+		return fmt.Sprintf("(forall ((r Int) (k Int)) (! (=> (and (select %s (refroot r)) (not %s)) (= (select (select %s r) k) (select (select %s r) k))) :pattern ((select (select %s r) k))))", alloc0, excT, now, was, now), true
+	}
+	return fmt.Sprintf("(forall ((r Int)) (! (=> (and (select %s (refroot r)) (not %s)) (= (select %s r) (select %s r))) :pattern ((select %s r))))", alloc0, excT, now, was, now), true
+}
+
 // frameObligations: everything the function wrote must be covered by its modifies clause.
 func (x *Executor) frameObligations(fr *Frame, con *Contract, ws *WriteSet, env *Env, ex exitPoint, entry *State, name string) {
 	u := x.u
@@ -141,147 +317,18 @@ func (x *Executor) frameObligations(fr *Frame, con *Contract, ws *WriteSet, env 
 		u.addObl(&Obligation{Name: name + "#frame", Kind: "frame", Fail: "function calls code with unknown effects (havoc) but declares a modifies clause; give the callee a contract", Clause: "modifies"})
 		return
 	}
-	// classify declared targets
-	type locTarget struct {
-		comp string
-		ref  string // object ref (field), slice term (elem)
-		kind string
-		sl   string
-	}
-	var targets []locTarget
-	whole := map[string]bool{}
-	preEnv := &Env{x: x, u: u, vars: env.vars, bound: map[string]Val{}, st: entry, old: entry, pkg: env.pkg}
-	for _, m := range con.Modifies {
-		switch t := m.(type) {
-		case *ESel:
-			if id, ok := t.X.(*EIdent); ok {
-				if ty := x.lookupTypeName(preEnv, id.Name); ty != nil {
-					if _, isS := ty.Underlying().(*types.Struct); isS {
-						comp, _ := u.fieldComp(ty, t.Name)
-						whole[comp] = true
-						continue
-					}
-				}
-			}
-			pv, err := preEnv.Eval(t.X)
-			if err != nil {
-				u.addObl(&Obligation{Name: name + "#frame", Kind: "frame", Fail: err.Error()})
-				continue
-			}
-			pt, ok := pv.Ty.Underlying().(*types.Pointer)
-			if !ok {
-				u.addObl(&Obligation{Name: name + "#frame", Kind: "frame", Fail: "modifies base not a pointer: " + m.String()})
-				continue
-			}
-			comp, _ := u.fieldComp(pt.Elem(), t.Name)
-			targets = append(targets, locTarget{comp: comp, ref: pv.T, kind: "field"})
-		case *EIndex:
-			sv, err := preEnv.Eval(t.X)
-			if err != nil {
-				u.addObl(&Obligation{Name: name + "#frame", Kind: "frame", Fail: err.Error()})
-				continue
-			}
-			switch tt := sv.Ty.Underlying().(type) {
-			case *types.Slice:
-				comp, _ := u.elemComp(tt.Elem())
-				targets = append(targets, locTarget{comp: comp, kind: "elems", sl: sv.T})
-			case *types.Map:
-				pres, val, ln := u.mapComps(tt)
-				for _, c := range []string{pres, val, ln} {
-					targets = append(targets, locTarget{comp: c, ref: sv.T, kind: "field"})
-				}
-			}
-		case *EUnary:
-			pv, err := preEnv.Eval(t.X)
-			if err != nil {
-				u.addObl(&Obligation{Name: name + "#frame", Kind: "frame", Fail: err.Error()})
-				continue
-			}
-			pt, _ := pv.Ty.Underlying().(*types.Pointer)
-			if pt == nil {
-				continue
-			}
-			if stt, isS := pt.Elem().Underlying().(*types.Struct); isS {
-				for i := 0; i < stt.NumFields(); i++ {
-					comp, _ := u.fieldComp(pt.Elem(), stt.Field(i).Name())
-					targets = append(targets, locTarget{comp: comp, ref: pv.T, kind: "field"})
-				}
-				for _, g := range u.ghostFields(pt.Elem()) {
-					comp, _ := u.fieldComp(pt.Elem(), g.name)
-					targets = append(targets, locTarget{comp: comp, ref: pv.T, kind: "field"})
-				}
-			} else if at, isA := pt.Elem().Underlying().(*types.Array); isA {
-				comp, _ := u.elemComp(at.Elem())
-				targets = append(targets, locTarget{comp: comp, ref: pv.T, kind: "field"})
-			} else {
-				comp, _ := u.cellComp(pt.Elem())
-				targets = append(targets, locTarget{comp: comp, ref: pv.T, kind: "field"})
-			}
-		case *EIdent:
-			if env.pkg != nil {
-				if v, ok := env.pkg.Scope().Lookup(t.Name).(*types.Var); ok {
-					comp, _ := u.globalComp(v.Pkg().Path(), v.Name(), v.Type())
-					whole[comp] = true
-				}
-			}
-		case *ETypeExpr:
-			if t.T.Kind == "slice" {
-				if ty, err := u.resolveType(t.T.Elem, env.pkg); err == nil {
-					comp, _ := u.elemComp(ty)
-					whole[comp] = true
-				}
-			}
-		}
+	for _, e := range x.frame.errs {
+		u.addObl(&Obligation{Name: name + "#frame", Kind: "frame", Fail: e})
 	}
 	var comps []string
 	for c := range ws.comps {
 		comps = append(comps, c)
 	}
 	sort.Strings(comps)
-	alloc0 := x.heapGet(entry, allocComp)
 	for _, c := range comps {
-		if c == allocComp || whole[c] {
+		goal, ok := x.frameGoal(c, ex.st)
+		if !ok {
 			continue
-		}
-		now := x.heapGet(ex.st, c)
-		was := x.heapGet(entry, c)
-		if now == was {
-			continue
-		}
-		var goal string
-		kind := u.heapKinds[c]
-		if kind == "global" {
-			goal = u.equalTermsSort(now, was)
-		} else if kind == "elem" {
-			// forall allocated base r, index k not covered: unchanged
-			var exc []string
-			for _, t := range targets {
-				if t.comp != c {
-					continue
-				}
-				if t.kind == "elems" {
-					exc = append(exc, fmt.Sprintf("(and (= r (s.base %[1]s)) (<= (s.off %[1]s) k) (< k (+ (s.off %[1]s) (s.len %[1]s))))", t.sl))
-				} else {
-					exc = append(exc, fmt.Sprintf("(= r %s)", t.ref))
-				}
-			}
-			excT := "false"
-			if len(exc) > 0 {
-				excT = "(or " + strings.Join(exc, " ") + ")"
-			}
-			goal = fmt.Sprintf("(forall ((r Int) (k Int)) (=> (and (select %s (refroot r)) (not %s)) (= (select (select %s r) k) (select (select %s r) k))))", alloc0, excT, now, was)
-		} else {
-			var exc []string
-			for _, t := range targets {
-				if t.comp == c && t.kind == "field" {
-					exc = append(exc, fmt.Sprintf("(= r %s)", t.ref))
-				}
-			}
-			excT := "false"
-			if len(exc) > 0 {
-				excT = "(or " + strings.Join(exc, " ") + ")"
-			}
-			goal = fmt.Sprintf("(forall ((r Int)) (=> (and (select %s (refroot r)) (not %s)) (= (select %s r) (select %s r))))", alloc0, excT, now, was)
 		}
 		u.addObl(&Obligation{Name: name + "#frame:" + c, Kind: "frame", Clause: "only declared locations of " + c + " are modified", Goal: fmt.Sprintf("(=> %s %s)", ex.cond, goal)})
 	}
